@@ -37,13 +37,13 @@ def gen_cases(seed, tier):
     cases = []
     for i in range(n):
         g = work_sig.gen_geometry(rng, tier)
-        k = 1 if i % 3 else int(rng.integers(2, 5))
+        k = 1 if common.stratum(i, 31, 3) else int(rng.integers(2, 5))
         sigs = []
         for q in range(k):
-            bk = work_sig.BOUND_KINDS[(i + q) % len(work_sig.BOUND_KINDS)]
+            bk = common.stratum(i + q, 33, work_sig.BOUND_KINDS)
             sigs.append(dict(spec=work_sig.gen_signal(rng, g, i=i + 7 * q), opts=work_sig.gen_opts(rng, i + q),
                              bound_kind=bk, brange=work_sig.gen_bounding(rng, g, bk)))
-        cases.append(dict(geom=g, sigs=sigs, prior=PRIOR[(i // 2) % len(PRIOR)], sub=int(rng.integers(2 ** 31))))
+        cases.append(dict(geom=g, sigs=sigs, prior=common.stratum(i, 32, PRIOR), sub=int(rng.integers(2 ** 31))))
     return cases
 
 
